@@ -24,6 +24,8 @@ class SourceTree:
         self._text = {}
         self._ast = {}
         self.files_read = set()
+        self.renamed = {}
+        self.inlined = {}
 
     def with_overlay(self, overlay):
         t = SourceTree(self.root, {**self.overlay, **overlay})
@@ -68,10 +70,18 @@ class SourceTree:
                 tree = ast.parse(self.text(rel), filename=rel)
             except SyntaxError as e:
                 raise AnalysisError("cannot parse %s: %s" % (rel, e), anchor=rel)
-            for node in ast.walk(tree):
-                for ch in ast.iter_child_nodes(node):
-                    ch._parent = node
-            tree._parent = None
+            # the view the rules read: canonical syntax (canon.py), extracted helpers followed (inline.py), renamed locals aliased (localnames.py)
+            from . import canon, inline, localnames
+            canon.canonicalise(tree)
+            inline._reparent(tree)
+            inl = inline.inline_new_helpers(tree, rel)
+            if inl:
+                self.inlined.setdefault(rel, []).extend(inl)
+                canon.canonicalise(tree)
+                inline._reparent(tree)
+            ren = localnames.normalise(tree, rel)
+            if ren:
+                self.renamed.setdefault(rel, []).extend(ren)
             self._ast[rel] = tree
         return self._ast[rel]
 
@@ -318,3 +328,159 @@ def inline_temporaries(expr, fn, upto_line=None, depth=3):
             return rec(node.func, d, line) + "(" + ", ".join([rec(a, d, line) for a in node.args] + ["%s=%s" % (k.arg, rec(k.value, d, line)) for k in node.keywords]) + ")"
         return src(node)
     return rec(expr, depth, upto_line if upto_line is not None else getattr(expr, "lineno", None))
+
+
+def dict_key_writes(node):
+    """Every write of a constant key into a mapping inside `node`, whatever the spelling: `m[k] = v`, `m.update({k: v, ...})`, `m.update(k=v)`,
+    `m.setdefault(k, v)`, `m |= {k: v}`.  Yields (mapping expression text, key value, value node, site node)."""
+    for n in ast.walk(node):
+        if isinstance(n, ast.Assign):
+            for t in n.targets:
+                if isinstance(t, ast.Subscript) and isinstance(t.slice, ast.Constant):
+                    yield (src(t.value), t.slice.value, n.value, n)
+        elif isinstance(n, ast.AugAssign) and isinstance(n.op, ast.BitOr) and isinstance(n.value, ast.Dict):
+            for k, v in zip(n.value.keys, n.value.values):
+                if isinstance(k, ast.Constant):
+                    yield (src(n.target), k.value, v, n)
+        elif isinstance(n, ast.Call) and isinstance(n.func, ast.Attribute):
+            if n.func.attr == "update":
+                if n.args and isinstance(n.args[0], ast.Dict):
+                    for k, v in zip(n.args[0].keys, n.args[0].values):
+                        if isinstance(k, ast.Constant):
+                            yield (src(n.func.value), k.value, v, n)
+                for kw in n.keywords:
+                    if kw.arg is not None:
+                        yield (src(n.func.value), kw.arg, kw.value, n)
+            elif n.func.attr == "setdefault" and len(n.args) == 2 and isinstance(n.args[0], ast.Constant):
+                yield (src(n.func.value), n.args[0].value, n.args[1], n)
+
+
+def conjuncts(test):
+    """The conjuncts of a test (`a and (b and c)` -> [a, b, c]; anything else -> [test]): nested `if`s and one `if` with `and` are the same thing."""
+    if isinstance(test, ast.BoolOp) and isinstance(test.op, ast.And):
+        out = []
+        for v in test.values:
+            out += conjuncts(v)
+        return out
+    return [test]
+
+
+def linear(stmts):
+    """The statements of a block read as a straight sequence: the canonical view writes a guard clause as `if c: <leaves> else: rest`; this reads it back as
+    the guard followed by the rest (the guard `if` is yielded, then the statements of its else part, recursively).  Use together with `guard_walk`."""
+    out = []
+    for k, s in enumerate(stmts):
+        out.append(s)
+        ab = (ast.Return, ast.Continue, ast.Break, ast.Raise)
+        if isinstance(s, ast.If) and s.orelse and s.body and isinstance(s.body[-1], ab):
+            out.extend(linear(s.orelse))
+        elif isinstance(s, ast.If) and s.orelse and isinstance(s.orelse[-1], ab) and k == len(stmts) - 1:
+            # the leaving branch is the else part (canonical polarity): the body is the continuation
+            out.extend(linear(s.body))
+        elif isinstance(s, ast.If) and not s.orelse and k == len(stmts) - 1:
+            # `if c: rest` as the last statement of a block = the guard `if not c: <leave the block>` followed by rest
+            out.extend(linear(s.body))
+    return out
+
+
+def _leaves(block):
+    return bool(block) and isinstance(block[-1], (ast.Return, ast.Continue, ast.Break, ast.Raise))
+
+
+def is_guard(s):
+    return isinstance(s, ast.If) and (_leaves(s.body) or _leaves(s.orelse))
+
+
+def leaving_side(s):
+    """The branch of a guard that leaves the block (body preferred when both do)."""
+    return s.body if _leaves(s.body) else s.orelse
+
+
+def guard_walk(s):
+    """ast.walk over a statement of a `linear` sequence: for a guard only its test and its leaving branch (the other side is the continuation, not part of the guard)."""
+    if is_guard(s) and s.orelse:
+        yield s
+        for x in ast.walk(s.test):
+            yield x
+        for b in leaving_side(s):
+            for x in ast.walk(b):
+                yield x
+    else:
+        for x in ast.walk(s):
+            yield x
+
+
+_OPP = {ast.NotEq: ast.Eq, ast.NotIn: ast.In, ast.IsNot: ast.Is}
+
+
+def atom_key(e):
+    """(positive spelling of an atomic test, polarity): `a != b` -> ("a == b", False); `==`/`is` operands are ordered, white space removed."""
+    import re as _re
+    pol = True
+    while isinstance(e, ast.UnaryOp) and isinstance(e.op, ast.Not):
+        e, pol = e.operand, not pol
+    if isinstance(e, ast.Compare) and len(e.ops) == 1:
+        op = e.ops[0]
+        if type(op) in _OPP:
+            pol = not pol
+            op = _OPP[type(op)]()
+        l, r = _re.sub(r"\s", "", src(e.left)), _re.sub(r"\s", "", src(e.comparators[0]))
+        sym = {ast.Eq: "==", ast.Is: "is", ast.In: "in", ast.Lt: "<", ast.LtE: "<=", ast.Gt: ">", ast.GtE: ">="}.get(type(op), "?")
+        if sym in ("==", "is") and r < l:
+            l, r = r, l
+        return ("%s %s %s" % (l, sym, r), pol)
+    return (_re.sub(r"\s", "", src(e)), pol)
+
+
+def truth(test, facts):
+    """Three-valued value (True / False / None) of a test when the atoms listed in `facts` have the given truth values.  `facts` maps the positive spelling of an
+    atom (see atom_key; e.g. "a == b", "x in y", "isinstance(v,float)") or a predicate over the atom's AST to a bool; every other atom is unknown."""
+    if isinstance(test, ast.UnaryOp) and isinstance(test.op, ast.Not):
+        r = truth(test.operand, facts)
+        return None if r is None else (not r)
+    if isinstance(test, ast.BoolOp):
+        vals = [truth(v, facts) for v in test.values]
+        if isinstance(test.op, ast.And):
+            return False if any(v is False for v in vals) else (True if all(v is True for v in vals) else None)
+        return True if any(v is True for v in vals) else (False if all(v is False for v in vals) else None)
+    key, pol = atom_key(test)
+    for k, v in facts.items():
+        if callable(k):
+            if k(test):
+                return v
+            continue
+        nk, npol = _norm_fact(k)
+        if nk == key:
+            val = v if npol else (not v)
+            return val if pol else (not val)
+    return None
+
+
+_fact_cache = {}
+
+
+def _norm_fact(k):
+    """A fact may be written in any spelling (`a != b`, `b == a`): it is normalised like the atoms of the test."""
+    if k not in _fact_cache:
+        try:
+            _fact_cache[k] = atom_key(ast.parse(k, mode="eval").body)
+        except SyntaxError:
+            _fact_cache[k] = (k, True)
+    return _fact_cache[k]
+
+
+def atoms(test):
+    """The atomic tests of a condition (operands of and/or/not, recursively)."""
+    if isinstance(test, ast.UnaryOp) and isinstance(test.op, ast.Not):
+        return atoms(test.operand)
+    if isinstance(test, ast.BoolOp):
+        out = []
+        for v in test.values:
+            out += atoms(v)
+        return out
+    return [test]
+
+
+def side(ifnode, value):
+    """The statements an `if` runs when its test has the given truth value."""
+    return ifnode.body if value else ifnode.orelse
